@@ -187,6 +187,10 @@ def install():
             return ('W', t[1], ref_subst_by_snap(t[2], m))
         return t
 
+    def _eq_view(t):
+        """what the IR's own type equality looks at: name, arguments, supertypes"""
+        return (tsnap(t), tuple(tsnap(x) for x in (getattr(t, 'supertypes', None) or ())))
+
     orig_subst = tp.substitute_type
 
     def substitute_type(t, type_map):
@@ -215,9 +219,13 @@ def install():
                                   tstr(ts), ', '.join('%s: %s' % (tstr(k), tstr(v))
                                                       for k, v in m.items()),
                                   tstr(got), tstr(exp)))
-            if not type_map and got != ts:
+            if not type_map and (got != ts or _eq_view(res) != _eq_view(t)):
                 c07_violation(r, 'substitute-empty-map', 'substitute_type',
-                              'empty map changed %s into %s' % (tstr(ts), tstr(got)))
+                              'substituting with an empty map does not return an equal type: '
+                              '%s became %s with supertypes %s (were %s)' % (
+                                  tstr(ts), tstr(got),
+                                  [tstr(tsnap(x)) for x in getattr(res, 'supertypes', ())],
+                                  [tstr(tsnap(x)) for x in getattr(t, 'supertypes', ())]))
             return res
         finally:
             r.depth -= 1
